@@ -605,6 +605,41 @@ theorem whole_worker_plain_stream (pol : Policy) (cfg : Cfg) (c : Nat) (st : RSt
   rw [b2, b3, s1, s3, hs]
   exact (plain_runner pol cfg).wholeW gs c st t hc hg hk
 
+/-- keyed entries of a stream of good one-DB groups carry a non-negative DB -/
+theorem stream_keyed_db (gs : List KGroup) (es : List Entry) (hs : StreamOf es gs) (hg : ∀ g ∈ gs, GoodGroup g ∧ g.oneDb) :
+    ∀ e ∈ es, keyless e = false → ∃ d : Nat, e.db = Int.ofNat d := by
+  intro e he hk'
+  have : e ∈ flat gs := by rw [← hs]; exact List.mem_filter.mpr ⟨he, by simp [hk']⟩
+  obtain ⟨g, hg', heg⟩ := List.mem_flatMap.mp this
+  exact ⟨g.dbn, (hg g hg').2 e heg⟩
+
+/-- the BIDIRECTIONAL worker with DB selection over a real stream (keyless entries anywhere, AUX entries make the
+    worker SELECT): keyspace and outcome are those of the worker over the keyed entries -/
+theorem whole_worker_bisync_stream (pol : Policy) (cfg : Cfg) (c : Nat) (st : RState) (t : Target) (gs : List KGroup)
+    (es : List Entry) (hs : StreamOf es gs)
+    (hc : t.cur = c) (hg : ∀ g ∈ gs, GoodGroup g ∧ g.oneDb) (hk : (gs.map KGroup.cell).Nodup) :
+    (∀ d k, (d, k) ∉ gs.map KGroup.cell →
+      (workerTarget t (runWorker true pol cfg c st t es)).ks d k = t.ks d k) ∧
+    ((∀ g ∈ gs, (bisyncEff pol cfg (t.inDb g.dbn) g).isStop = false) →
+      lastOut (runWorker true pol cfg c st t es) = .ok ∧
+      ∀ g ∈ gs, (workerTarget t (runWorker true pol cfg c st t es)).ks g.dbn g.key
+        = (bisyncEff pol cfg (t.inDb g.dbn) g).result (t.ks g.dbn g.key)) ∧
+    (∀ pre g post out, gs = pre ++ g :: post → (∀ p ∈ pre, (bisyncEff pol cfg (t.inDb p.dbn) p).isStop = false) →
+      bisyncEff pol cfg (t.inDb g.dbn) g = .stop out →
+      lastOut (runWorker true pol cfg c st t es) = out ∧
+      (∀ p ∈ pre, (workerTarget t (runWorker true pol cfg c st t es)).ks p.dbn p.key
+        = (bisyncEff pol cfg (t.inDb p.dbn) p).result (t.ks p.dbn p.key)) ∧
+      (∀ d k, (d, k) ∉ pre.map KGroup.cell → (workerTarget t (runWorker true pol cfg c st t es)).ks d k = t.ks d k)) := by
+  obtain ⟨_, b2, b3⟩ := runWorker_is_runWG_bisync pol cfg es c st t
+  obtain ⟨s1, _, s3⟩ := runWG_strip (runBisync pol cfg)
+    (fun st t e h => by
+      obtain ⟨a, b, c'⟩ := runBisync_keyless pol cfg st t e [] h
+      exact ⟨by rw [a]; rfl, by rw [b]; rfl, by rw [c']; rfl⟩)
+    (fun st t e => (runBisync_inv pol cfg [e] st t).1)
+    es c c st t t hc hc rfl rfl rfl (stream_keyed_db gs es hs hg)
+  rw [b2, b3, s1, s3, hs]
+  exact (bisync_runner pol cfg).wholeW gs c st t hc hg hk
+
 /-! ## replaceHashTag: a good key group stays good under `retag` (so the whole-run theorems apply to what the worker
     really replays — with `Nodup` of the REWRITTEN keys) -/
 
@@ -823,6 +858,12 @@ example : (workerTarget exT (runWorker false .replace exCfg 0 none exT [exAux, e
     = some (snapshotObj exCfg exT exR1 []) := by
   have h := (whole_worker_plain_stream .replace exCfg 0 none exT [exG1, exG3] _ ex_streamW rfl ex_goodW (by decide)).2.1
     (fun g _ => rfl)
+  exact h.2 exG3 (by simp)
+-- the same stream through the bidirectional worker
+example : (workerTarget exT (runWorker true .replace exCfg 0 none exT [exAux, exE0, exE1, exE2, exFn, exAux1, exR1])).ks 1 [104]
+    = some (snapshotObj exCfg exT exR1 []) := by
+  have h := (whole_worker_bisync_stream .replace exCfg 0 none exT [exG1, exG3] _ ex_streamW rfl ex_goodW (by decide)).2.1
+    (fun g hg => by simp at hg; rcases hg with rfl | rfl <;> decide)
   exact h.2 exG3 (by simp)
 
 end GunYu.Props.C20
